@@ -237,8 +237,22 @@ func checkC06(sc *Scenario, h *History) []Violation {
 	}
 	evs := dataEvents(h, 0)
 	if len(evs) == 0 {
-		if x.ViaBdat && x.Chunks[0] > x.N {
-			return out // the very first chunk was refused: no transfer was started
+		if x.ViaBdat {
+			// no Data call is due if not a single octet was accepted before the
+			// transfer was refused (empty chunks hand nothing over)
+			sum, handed := 0, false
+			for i, c := range x.Chunks {
+				if sum+c > x.N {
+					break
+				}
+				sum += c
+				if c > 0 || i == len(x.Chunks)-1 {
+					handed = true
+				}
+			}
+			if !handed {
+				return out
+			}
 		}
 		out = append(out, Violation{Rule: "C06.data-calls", Detail: "Data was never called", Witness: wit})
 		return out
